@@ -2,6 +2,7 @@
 Reduino.transpile.parser on JSON cases (stdin) -> JSON (stdout)."""
 import ast
 import json
+import re
 import sys
 
 from Reduino.transpile import parser as P
@@ -39,6 +40,60 @@ def do_infer(c):
     return {"label": lab, "var_types": var_types, "calls": calls}
 
 
+TY = r"(?:int|float|bool|String|void|__redu_list<[\w<>]+>)"
+RE_DECL = re.compile(rf"^(\s*)({TY})\s+([A-Za-z_]\w*)\s*(?:=.*)?;\s*$")
+RE_FUNC = re.compile(rf"^({TY})\s+([A-Za-z_]\w*)\s*\((.*)\)\s*\{{\s*$")
+RE_PARAM = re.compile(rf"^\s*({TY})\s+([A-Za-z_]\w*)\s*$")
+
+
+def cpp_decls(cpp):
+    """declared C++ types in the emitted sketch: globals, per function (incl. setup/loop): return type, params, locals"""
+    globs, funcs, cur = [], [], None
+    for line in cpp.splitlines():
+        if cur is None:
+            m = RE_FUNC.match(line)
+            if m:
+                params = []
+                ptxt = m.group(3).strip()
+                ok = True
+                if ptxt:
+                    for part in ptxt.split(","):
+                        pm = RE_PARAM.match(part)
+                        if pm is None:
+                            ok = False
+                            break
+                        params.append([pm.group(2), pm.group(1)])
+                cur = {"name": m.group(2), "ret": m.group(1), "params": params if ok else None, "locals": []}
+                continue
+            m = RE_DECL.match(line)
+            if m and m.group(1) == "":
+                globs.append([m.group(3), m.group(2)])
+        else:
+            if line.startswith("}"):
+                funcs.append(cur)
+                cur = None
+                continue
+            m = RE_DECL.match(line)
+            if m:
+                cur["locals"].append([m.group(3), m.group(2)])
+    return {"globals": globs, "funcs": funcs}
+
+
+def do_decls(src):
+    from Reduino.transpile.emitter import emit
+    try:
+        cpp = emit(P.parse(src))
+    except ValueError as e:
+        return {"exc": "ValueError", "msg": str(e)[:200]}
+    except RecursionError:
+        return {"exc": "RecursionError"}
+    except Exception as e:  # noqa
+        return {"exc": kind(e), "msg": str(e)[:200]}
+    d = cpp_decls(cpp)
+    d["cpp"] = cpp
+    return d
+
+
 def guarded(fn, *a):
     try:
         return ["ok", fn(*a)]
@@ -55,6 +110,8 @@ def main():
         op = c[0]
         if op == "infer":
             out.append(do_infer(c[1]))
+        elif op == "decls":
+            out.append(do_decls(c[1]))
         elif op == "cpp":
             ct = P._cpp_type(c[1])
             out.append([ct, P._default_value_for_type(ct)])
